@@ -181,7 +181,7 @@ func c03Matrix(rc *RuleCtx) {
 					}
 					bad := false
 					for _, p := range paths {
-						if !permCheckedOnPath(p, keys, wr, nil) {
+						if feasiblePath(p) && !permCheckedOnPath(p, keys, wr, nil) {
 							bad = true
 						}
 					}
